@@ -241,3 +241,19 @@ Proof.
     + intros u v l Hin Hl. apply filter_In in Hin as [Hp Hle]. apply In_pairs_upto in Hp. cbn in Hle.
       destruct (Z.leb_spec u k); destruct (Z.leb_spec v k); lia.
 Qed.
+
+(* ---------- one assignment per object ---------- *)
+Theorem cliquecol_unique a b n k c : 0 <= n -> 0 <= k -> 0 <= c ->
+  (forall e, In e (cc_E a n) <-> In e (cc_E b n)) ->
+  (forall i u, 1 <= i <= k -> 1 <= u <= n -> cc_Q a n i u = cc_Q b n i u) ->
+  (forall v l, 1 <= v <= n -> 1 <= l <= c -> cc_C a n k c v l = cc_C b n k c v l) ->
+  forall x, 1 <= x <= cc_numvar n k c -> a x = b x.
+Proof.
+  intros Hn Hk Hc HE HQ HC x Hx. unfold cc_numvar in Hx. pose proof (Z.mul_nonneg_nonneg k n Hk Hn).
+  destruct (Z.le_gt_cases x (cc_ne n)) as [H1|H1].
+  - destruct (number_surj (pairs (upto n)) 0 x) as [e He]; [unfold cc_ne in H1; lia|].
+    apply (sel_inj a b (cc_etab n) (cc_etab_NoDup n) HE (e, x) He).
+  - destruct (Z.le_gt_cases x (cc_ne n + k * n)) as [H2|H2].
+    + destruct (bvar_surj (cc_ne n) k n x) as (i & u & Hi & Hu & ->); try lia. now apply HQ.
+    + destruct (bvar_surj (cc_ne n + k * n) n c x) as (v & l & Hv & Hl & ->); try lia. now apply HC.
+Qed.
